@@ -18,10 +18,11 @@ META = dict(
 )
 
 # TLC evaluates the transcribed machine at ~0.3 ms per case, so the bounds are set by the time budget
-BOUNDS = {"quick": [dict(A1=4, A2=3, A3=1, MaxStr=5, WithTab="FALSE")],
-          "thorough": [dict(A1=5, A2=3, A3=2, MaxStr=7, WithTab="FALSE"),
-                       dict(A1=0, A2=0, A3=0, MaxStr=5, WithTab="TRUE")]}
-WITNESSES = ("WitnessEscapedSingle", "WitnessTrailingRun", "WitnessEmptyArg", "WitnessPushback", "WitnessEmptyTokens")
+BOUNDS = {"quick": [dict(A1=4, A2=3, A3=1, M2=2, MaxStr=5, WithTab="FALSE")],
+          "thorough": [dict(A1=5, A2=3, A3=2, M2=3, MaxStr=7, WithTab="FALSE"),
+                       dict(A1=0, A2=0, A3=0, M2=0, MaxStr=5, WithTab="TRUE")]}
+WITNESSES = ("WitnessEscapedSingle", "WitnessTrailingRun", "WitnessEmptyArg", "WitnessPushback", "WitnessEmptyTokens",
+             "WitnessBareBackslash", "WitnessBareQuote")
 
 
 def _s(chars):
@@ -43,13 +44,13 @@ def _replay(ctx, cases):
         ctx.count(1)
         if c["quoted"]:
             if any(ch in '"\'\\ ' for a in c["args"] for ch in a) or [] in c["args"]:
-                ctx.nontrivial(("q", line, sq))
+                ctx.nontrivial(("q", c["minimal"], line, sq))
         elif len(toks) != 1 or toks[0] != line:
             ctx.nontrivial(("s", line, sq))
     for row, failed, drift in table.judge(ctx, "CmdlineTrace", rows, workers=2):
         c = row["c"]
         for law in failed:
-            cls = ("quoted-args" if c["quoted"] else "raw-string") + (",single-quotes" if c["sq"] else ",double-only")
+            cls = (("bare-args" if c["minimal"] else "quoted-args") if c["quoted"] else "raw-string") + (",single-quotes" if c["sq"] else ",double-only")
             ctx.violation("law:%s:cmdline.split:%s" % (law, cls),
                           "law %s fails: split(%r, single_quotes_allowed=%s) -> %r%s" % (
                               law, _s(c["line"]), c["sq"], [_s(t) for t in row["impl"]["toks"]],
@@ -73,7 +74,7 @@ def run(ctx):
         # one TLC run: laws proved on every case, witnesses reached (they live in the first configuration), table exported
         part, _ = table_common.generate(ctx, "CmdlineGen", consts, witnesses=WITNESSES if n == 0 else (), workers=8)
         for k in part:
-            key = (k["c"]["quoted"], _s(k["c"]["line"]), k["c"]["sq"], tuple(_s(a) for a in k["c"]["args"]))
+            key = (k["c"]["quoted"], k["c"]["minimal"], _s(k["c"]["line"]), k["c"]["sq"], tuple(_s(a) for a in k["c"]["args"]))
             if key not in seen:
                 seen.add(key)
                 cases.append(k)
@@ -82,7 +83,8 @@ def run(ctx):
     core.fork_map(ctx, _replay, cases, nproc=8 if ctx.quick else 16, chunks_per_proc=1)
     b = BOUNDS[ctx.tier][0]
     ctx.rule("argument lists: [], 1 arg of <=%(A1)s chars, 2 args of <=%(A2)s chars, 3 args of <=%(A3)s chars, quoted by "
-             "the spec's rule and joined with a space; arbitrary strings of <=%(MaxStr)s chars" % b
+             "the spec's double-quote rule and joined with a space; the same lists (2 args of <=%(M2)s chars) written by the "
+             "minimal rule (bare, only quote characters escaped; wrapped only if empty or containing whitespace); arbitrary strings of <=%(MaxStr)s chars" % b
              + ("" if ctx.quick else " (and of <=5 chars with TAB added)")
              + "; alphabet {a, space, \", ', \\}; both single_quotes_allowed settings; all enumerated by TLC. Non-trivial = "
              "a quoted list containing a syntax character or an empty argument, or a raw string that is not returned "
